@@ -42,8 +42,10 @@ names (tuple merges) are covered in full.
                         value returns exactly the direct references stored in the rule's content, and atomic rules
                         get none (`C16_atomic_none`).
 Names of built-ins other than `EOI` (`ANY`, `PEEK`, …) also get accessors in the code; their values carry no
-rule id in the model, so `directRefs` does not speak about them: `C16_shape` / `C16_identity_path` cover them,
-the differential ties execute them.
+rule id in the model, so `directRefs` (and every theorem here with the hypothesis `refId g x = some xid`) does not
+speak about them; only `C16_identity_path` applies.  They are covered by `Props/C16Slots.lean` (`C16_slots`,
+`C16_any_name_never_stuck`: never stuck, typed, slot k = matches of mention site k — for every NAME), which also
+states the SLOT assignment that the theorems of this file leave open (they fix results only up to `flatten`).
 -/
 import PestTyped.Lemmas.GettersLemmas
 namespace PestTyped
